@@ -217,6 +217,9 @@ func Sha(b []byte) string {
 
 // Content is the deterministic content of an output.
 func Content(proc, port string, params, tags, inShas []KV, joinedShas []string, size int) []byte {
+	if size < 0 {
+		return []byte{} // a legitimately empty output (grep without a hit)
+	}
 	var sb strings.Builder
 	fmt.Fprintf(&sb, "VOUT1 id=%s port=%s\n", proc, port)
 	srt := func(kvs []KV) []KV {
